@@ -100,7 +100,17 @@ func (t *Tree) parseOuterExpr(expr Expr) (Expr, error) {
 
 		case ".": // Dot access
 			var args = make([]Expr, 0)
-			attr, err := t.parseInnerExpr()
+			var attr Expr
+			var err error
+			if num := t.peekNonSpace(); num.tokenType == tokenNumber {
+				// A number after the dot is an index or key by itself: in
+				// "rows.0.name" the next dot starts another access, it does not
+				// make the number a decimal.
+				t.nextNonSpace()
+				attr = NewNumberExpr(num.value, num.Pos)
+			} else {
+				attr, err = t.parseInnerExpr()
+			}
 			if err != nil {
 				return nil, err
 			}
